@@ -34,6 +34,32 @@ pub fn entries_json(p: &Package) -> Value {
     }
 }
 
+/// raw observations of what the builder added by itself, decoded with the harness's own header reader
+pub fn derived_json(bytes: &[u8]) -> Option<Value> {
+    let lay = crate::rawhdr::layout(bytes)?;
+    let h = &lay.hdr;
+    let opt_s = |t: u32| match h.strings(bytes, t) { Some(v) if v.len() == 1 => json!({"some": v[0]}), _ => json!({"none": true}) };
+    let strs: Vec<Value> = [1044u32, 1021, 5062, 1124, 1064, 1125, 1126, 1016, 1005].iter().map(|t| json!({"t": t, "v": opt_s(*t)})).collect();
+    let zip = |n: u32, f: u32, v: u32| -> Value {
+        let (ns, fs, vs) = (h.strings(bytes, n).unwrap_or_default(), h.u32s(bytes, f).unwrap_or_default(), h.strings(bytes, v).unwrap_or_default());
+        Value::Array((0..ns.len().min(fs.len()).min(vs.len())).map(|i| json!({"a": ns[i], "b": u32d(fs[i]), "c": vs[i]})).collect())
+    };
+    let name_end = bytes[10..76].iter().position(|&c| c == 0).unwrap_or(66);
+    Some(json!({
+        "tags": h.entries.iter().map(|e| e.tag).filter(|t| *t != 63).collect::<Vec<_>>(),
+        "strs": strs,
+        "i18ntable": h.strings(bytes, 100).unwrap_or_default(),
+        "size": match h.u32s(bytes, 1009) { Some(v) if v.len() == 1 => json!({"some": u32d(v[0])}), _ => json!({"none": true}) },
+        "provides": zip(1047, 1112, 1113), "requires": zip(1049, 1048, 1050), "recommends": zip(5046, 5048, 5047),
+        "inodes": h.u32s(bytes, 1096).unwrap_or_default(), "devices": h.u32s(bytes, 1095).unwrap_or_default(),
+        "rdevs": h.u16s(bytes, 1033).unwrap_or_default(), "langs": h.strings(bytes, 1097).unwrap_or_default(),
+        "digestalgo": h.u32s(bytes, 5011).unwrap_or_default(), "dirnames": h.strings(bytes, 1118).unwrap_or_default(),
+        "lead": {"magic": &bytes[0..4], "major": bytes[4], "minor": bytes[5], "type": u16::from_be_bytes([bytes[6], bytes[7]]),
+                 "arch": u16::from_be_bytes([bytes[8], bytes[9]]), "name": &bytes[10..10 + name_end],
+                 "os": u16::from_be_bytes([bytes[76], bytes[77]]), "sigtype": u16::from_be_bytes([bytes[78], bytes[79]])},
+    }))
+}
+
 pub fn build_event(cfg: &gen_::Cfg, wd: &gen_::Workdir, i: u64) -> (Value, Option<Vec<u8>>) {
     let built = guarded(|| gen_::build(cfg, wd));
     let p = match built {
@@ -57,7 +83,11 @@ pub fn build_event(cfg: &gen_::Cfg, wd: &gen_::Workdir, i: u64) -> (Value, Optio
         Ok(Err(e)) => json!({"err": err_name(&e)}),
         Err(m) => json!({"panic": m}),
     }}));
-    (json!({"event":"Build","i":i,"cfg":gen_::cfg_json(cfg),"files":files_json(cfg),"gets":gets,"entries":entries_json(&q)}), Some(bytes))
+    let mut ev = json!({"event":"Build","i":i,"cfg":gen_::cfg_json(cfg),"files":files_json(cfg),"gets":gets,"entries":entries_json(&q)});
+    if let Some(d) = derived_json(&bytes) {
+        ev["derived"] = d;
+    }
+    (ev, Some(bytes))
 }
 
 pub fn run(args: &Args) {
